@@ -281,6 +281,19 @@ def contracts_sd(reg):
                      ensures=[("operand-rebuilt-from-its-internal-unit-parameters-under-internal-units", "rebuilt_under == ['int']"),
                               ("callers-units-restored", "units_stack == ['caller']")]))
 
+    # the reorganisation energy recovered from the data is handed out in the current units (like the declared one)
+    def setup_measure_sd(S):
+        n = S.int("N")
+        ax = S.obj("FrequencyAxis(stub)", label="axis", length=n, data=S.array("wdata", (n,), "real"), max=S.real("wmax"))
+        tag = z3.Function("u_to_current_units", z3.RealSort(), z3.RealSort())
+        me = S.obj(SD, label="self", axis=ax, data=S.array("jdata", (n,), "real"), lamb=S.real("lamb"),
+                   convert_energy_2_current_u=Builtin("self.convert_energy_2_current_u", lambda ex, a, k, l: tag(V.z3real(a[0]))))
+        reg.models.table["to_current_units"] = Builtin("spec:to_current_units", lambda ex, a, k, l: tag(V.z3real(a[0])))
+        return dict(self=me, N=n)
+    reg.add(Contract(SD + ".measure_reorganization_energy", setup=setup_measure_sd, requires=["N >= 2"],
+                     ensures=[("recovered-value-converted-to-the-current-units", "result == to_current_units(local_integ)")],
+                     expose_locals=["integ"]))
+
 
 def plan(ctx):
     p = Plan("C09")
@@ -289,7 +302,8 @@ def plan(ctx):
     contracts(ctx.registry)
     p.functions = [CF + "CorrelationFunction." + f + "#different-temperatures" for f in ("__add__", "add_to_data", "add_to_data2")]
     p.functions.append(CF + "CorrelationFunction.measure_reorganization_energy")
-    p.functions += [SD + ".__add__#inside-any-units-context", SD + ".add_to_data2#a-function-added-to-itself"]
+    p.functions += [SD + ".__add__#inside-any-units-context", SD + ".add_to_data2#a-function-added-to-itself",
+                    SD + ".measure_reorganization_energy"]
     p.lemmas = [lemma_constructor_linear, lemma_three_components, lemma_addition]
     p.oracles = ["native/oracle_C09.py"]
     p.trusted = ["numpy.exp / numpy.tan are (uninterpreted) functions: equal arguments give equal values",
